@@ -3,7 +3,7 @@
 <id>=Cxx,Cyy) against /repo with the change applied; always reverts; records the outcome in seeded/<id>/meta.json and seeded/MATRIX.json."""
 import sys, os, json, subprocess, time, re
 ROOT = '/verif'
-ids = sorted(d for d in os.listdir(ROOT + "/seeded") if re.match(r"^C\d\d-(r2)?m\d$", d))
+ids = sorted(d for d in os.listdir(ROOT + "/seeded") if re.match(r"^C\d\d-(r[23])?m\d$", d))
 only = [a for a in sys.argv[1:] if '=' not in a]
 extra = dict(a.split('=') for a in sys.argv[1:] if '=' in a)
 if only:
